@@ -996,3 +996,49 @@ def _oracle_flag_storage(c, o):
 
 FAMILIES.append(Family('flag_storage', _gen_flag_storage, _impl_flag_storage, None, '', None, _oracle_flag_storage,
                        theorem='C13_history_local (an edit touches the edited value only)'))
+
+
+# ---- added after the repair 6376a33: a batch built with a per-element reflection mask; elements whose flag is False keep their rotation ----
+def _gen_reflection_mask(rng, tier):
+    out = []
+    for i in range(6 if tier == 'quick' else 80):
+        n = rng.randint(2, 5)
+        qs = [[rng.randint(-3, 3) for _ in range(4)] for _ in range(n)]
+        qs = [q if any(q[:3]) else [1, 0, 0, 2] for q in qs]       # rotations with an axis ...
+        k = rng.randrange(n)
+        qs[k] = [0, 0, 0, rng.choice([1, 2, -1])]                  # ... except one identity element, which is not reflected
+        mask = [bool(rng.getrandbits(1)) for _ in range(n)]
+        mask[k] = False
+        if not any(mask):
+            mask[(k + 1) % n] = True
+        out.append({'q': qs, 'mask': mask, 'via': ['from_quat', 'init'][i % 2]})
+    return out
+
+
+def _impl_reflection_mask(c):
+    from mrpro.data import Rotation
+    q = torch.tensor(c['q'], dtype=torch.float64)
+    m = torch.tensor(c['mask'])
+    r = Rotation.from_quat(q, reflection=m) if c['via'] == 'from_quat' else Rotation(q, normalize=True, reflection=m)
+    single = [Rotation.from_quat(q[i], reflection=bool(m[i])).as_matrix().tolist() for i in range(len(c['q']))]
+    return {'M': r.as_matrix().tolist(), 'f': [bool(x) for x in r.is_improper.tolist()], 'single': single}
+
+
+def _oracle_reflection_mask(c, o):
+    if isinstance(o, dict) and 'raises' in o:
+        return f'Rotation with a reflection mask raised {o["raises"]}: {o.get("msg")}'
+    M, S = np.array(o['M']), np.array(o['single'])
+    for i, (mi, si, fl) in enumerate(zip(M, S, c['mask'])):
+        if not np.all(np.isfinite(mi)):
+            return f'element {i} (reflection flag {fl}, quaternion {c["q"][i]}) of a batch built with reflection={c["mask"]} has a non-finite matrix'
+        if abs(np.linalg.det(mi) - (-1.0 if fl else 1.0)) > 1e-6 or np.abs(mi @ mi.T - np.eye(3)).max() > 1e-6:
+            return f'element {i}: matrix is not orthogonal with determinant {-1 if fl else 1}'
+        if np.abs(mi - si).max() > 1e-6:
+            return f'element {i} of the batch differs from the same rotation built alone'
+        if o['f'][i] != fl:
+            return f'element {i}: improper flag {o["f"][i]} for reflection {fl}'
+    return None
+
+
+FAMILIES.append(Family('reflection_mask', _gen_reflection_mask, _impl_reflection_mask, None, '', None, _oracle_reflection_mask,
+                       descr=lambda c: {'via': c['via']}, theorem='(implementation-level: element-wise consistency of batched construction)'))
